@@ -69,7 +69,8 @@ var exprCorpus = [][]string{
 	{"p", ":", "a"}, {"/", "p", ":", "a", "[", "p", ":", "a", "=", "1", "]", "/", "p", ":", "*"}, {"concat", "(", "p", ":", "a", ",", "'s'", ")"},
 }
 
-var lrTokens = []string{"/", "a", "..", "[", "]", "=", "current", "(", ")", "p:a", "b", "q:a", "xmla", "*", ".", "1", "'x'", "!=", "|", "\u00a0", "bé", "a·b", "é", "xmlp:a", "p:xmla", "XMLq:a"}
+var lrTokens = []string{"/", "a", "..", "[", "]", "=", "current", "(", ")", "p:a", "b", "q:a", "xmla", "*", ".", "1", "'x'", "!=", "|", "\u00a0", "bé", "a·b", "é", "xmlp:a", "p:xmla", "XMLq:a",
+	"p:current", "q:current"} // a prefixed function name: no path-arg has one, whatever the prefix
 
 // leafref paths whose prefixed names are written as three tokens (mutation bases)
 var lrSplitCorpus = [][]string{{"..", "/", "p", ":", "a"}, {"/", "p", ":", "a", "/", "a", "[", "p", ":", "a", "=", "current", "(", ")", "/", "..", "/", "p", ":", "a", "]", "/", "a"}}
